@@ -594,12 +594,12 @@ static std::string exec_line(World*& W, long lineno, const std::string& line) {
     }
     if (cmd == "ensavg") {
         long i = t.l(), j = t.l();
-        EnsembleAverage EA(W->s(), W->h(), W->quad_op(i, j), W->dm());
+        std::unique_ptr<EnsembleAverage> EA_p(new EnsembleAverage(W->s(), W->h(), W->quad_op(i, j), W->dm())); EnsembleAverage& EA = *EA_p;
         EA.prepare();
         J.kvc("v", EA.getResult());
         EA.prepare();                       // a repeated prepare() must be a no-op (ComputableObject convention)
         J.kvc("v2", EA.getResult());
-        EnsembleAverage EB(EA);             // copy keeps the result
+        std::unique_ptr<EnsembleAverage> EB_p(new EnsembleAverage(EA)); EnsembleAverage& EB = *EB_p;             // copy keeps the result
         J.kvc("vcopy", EB.getResult());
         return J.done();
     }
@@ -622,9 +622,9 @@ static std::string exec_line(World*& W, long lineno, const std::string& line) {
     }
     if (cmd == "opmap") {   // opmap c|cdag i  |  opmap quad i j : block mapping after prepare() only
         std::string kind = t.word(); long i = t.l();
-        if (kind == "c") { AnnihilationOperator F(W->ic(), W->s(), W->h(), i); F.prepare(); J.kvraw("map", jblockmap(F)); }
-        else if (kind == "cdag") { CreationOperator F(W->ic(), W->s(), W->h(), i); F.prepare(); J.kvraw("map", jblockmap(F)); }
-        else { long j = t.l(); QuadraticOperator F(W->ic(), W->s(), W->h(), i, j); F.prepare(); J.kvraw("map", jblockmap(F)); }
+        if (kind == "c") { std::unique_ptr<AnnihilationOperator> F(new AnnihilationOperator(W->ic(), W->s(), W->h(), i)); F->prepare(); J.kvraw("map", jblockmap(*F)); }
+        else if (kind == "cdag") { std::unique_ptr<CreationOperator> F(new CreationOperator(W->ic(), W->s(), W->h(), i)); F->prepare(); J.kvraw("map", jblockmap(*F)); }
+        else { long j = t.l(); std::unique_ptr<QuadraticOperator> F(new QuadraticOperator(W->ic(), W->s(), W->h(), i, j)); F->prepare(); J.kvraw("map", jblockmap(*F)); }
         return J.done();
     }
     if (cmd == "quadop") {
@@ -662,7 +662,7 @@ static std::string exec_line(World*& W, long lineno, const std::string& line) {
         }
         J.kvi("vanishing", G->isVanishing() ? 1 : 0);
         J.kvi("i0", G->getIndex(0)); J.kvi("i1", G->getIndex(1));
-        GreensFunction Gcopy(*G);            // the copy constructor must give an object with the same values
+        std::unique_ptr<GreensFunction> Gcopy_p(new GreensFunction(*G)); GreensFunction& Gcopy = *Gcopy_p;            // the copy constructor must give an object with the same values
         std::string ocopy = "[";
         bool firstcopy = true;
         while (t.more()) {
@@ -685,7 +685,7 @@ static std::string exec_line(World*& W, long lineno, const std::string& line) {
     if (cmd == "susc") {
         // susc a b c d  sub <mode 0|1|2|3> [are aim bre bim]  n <k> ..  z <k> ..  tau <k> ..
         long a = t.l(), b = t.l(), c = t.l(), d = t.l();
-        Susceptibility X(W->s(), W->h(), W->quad_op(a, b), W->quad_op(c, d), W->dm());
+        std::unique_ptr<Susceptibility> X_p(new Susceptibility(W->s(), W->h(), W->quad_op(a, b), W->quad_op(c, d), W->dm())); Susceptibility& X = *X_p;
         X.prepare(); X.compute();
         if (W->repeat) { X.prepare(); X.compute(); }
         J.kvi("vanishing", X.isVanishing() ? 1 : 0);
@@ -696,13 +696,13 @@ static std::string exec_line(World*& W, long lineno, const std::string& line) {
                 if (mode == 1) X.subtractDisconnected();
                 else if (mode == 2) { ComplexType aa = t.c(), bb = t.c(); X.subtractDisconnected(aa, bb); }
                 else if (mode == 3) {
-                    EnsembleAverage EA(W->s(), W->h(), W->quad_op(a, b), W->dm());
-                    EnsembleAverage EB(W->s(), W->h(), W->quad_op(c, d), W->dm());
+                    std::unique_ptr<EnsembleAverage> EA_p(new EnsembleAverage(W->s(), W->h(), W->quad_op(a, b), W->dm())); EnsembleAverage& EA = *EA_p;
+                    std::unique_ptr<EnsembleAverage> EB_p(new EnsembleAverage(W->s(), W->h(), W->quad_op(c, d), W->dm())); EnsembleAverage& EB = *EB_p;
                     X.subtractDisconnected(EA, EB);
                 }
                 else if (mode == 4) {       // averages that the caller has already prepared (and read)
-                    EnsembleAverage EA(W->s(), W->h(), W->quad_op(a, b), W->dm());
-                    EnsembleAverage EB(W->s(), W->h(), W->quad_op(c, d), W->dm());
+                    std::unique_ptr<EnsembleAverage> EA_p(new EnsembleAverage(W->s(), W->h(), W->quad_op(a, b), W->dm())); EnsembleAverage& EA = *EA_p;
+                    std::unique_ptr<EnsembleAverage> EB_p(new EnsembleAverage(W->s(), W->h(), W->quad_op(c, d), W->dm())); EnsembleAverage& EB = *EB_p;
                     EA.prepare(); EB.prepare();
                     (void)EA.getResult(); (void)EB.getResult();
                     X.subtractDisconnected(EA, EB);
@@ -713,7 +713,7 @@ static std::string exec_line(World*& W, long lineno, const std::string& line) {
             std::string o = "[";
             for (long q = 0; q < k; q++) {
                 if (q) o += ",";
-                if (what == "n") { long n = t.l(); o += JOut::cnum(X(n)); Susceptibility Xc(X); if (Xc(n) != X(n) && !(std::isnan(Xc(n).real()) && std::isnan(X(n).real()))) throw std::runtime_error("runner: copy of Susceptibility evaluates differently"); }
+                if (what == "n") { long n = t.l(); o += JOut::cnum(X(n)); std::unique_ptr<Susceptibility> Xc_p(new Susceptibility(X)); Susceptibility& Xc = *Xc_p; if (Xc(n) != X(n) && !(std::isnan(Xc(n).real()) && std::isnan(X(n).real()))) throw std::runtime_error("runner: copy of Susceptibility evaluates differently"); }
                 else if (what == "z") { ComplexType z = t.c(); o += JOut::cnum(X(z)); }
                 else if (what == "tau") { double tau = t.d(); o += JOut::cnum(X.of_tau(tau)); }
                 else throw std::runtime_error("runner: susc bad selector");
@@ -777,14 +777,14 @@ static std::string exec_line(World*& W, long lineno, const std::string& line) {
         long lo = t.l(), hi = t.l();
         std::vector<long> windows;
         { std::istringstream wss(ws); std::string tok; while (std::getline(wss, tok, ',')) windows.push_back(strtol(tok.c_str(), 0, 10)); }
-        TwoParticleGF X(W->s(), W->h(), W->c_of(src, i), W->c_of(src, j), W->cdag_of(src, k), W->cdag_of(src, l), W->dm());
+        std::unique_ptr<TwoParticleGF> X_p(new TwoParticleGF(W->s(), W->h(), W->c_of(src, i), W->c_of(src, j), W->cdag_of(src, k), W->cdag_of(src, l), W->dm())); TwoParticleGF& X = *X_p;
         X.prepare(); X.compute(false, std::vector<freq_tuple>(), W->comm);
-        GreensFunction G13(W->s(), W->h(), W->c_of(src, i), W->cdag_of(src, k), W->dm());
-        GreensFunction G24(W->s(), W->h(), W->c_of(src, j), W->cdag_of(src, l), W->dm());
-        GreensFunction G14(W->s(), W->h(), W->c_of(src, i), W->cdag_of(src, l), W->dm());
-        GreensFunction G23(W->s(), W->h(), W->c_of(src, j), W->cdag_of(src, k), W->dm());
+        std::unique_ptr<GreensFunction> G13_p(new GreensFunction(W->s(), W->h(), W->c_of(src, i), W->cdag_of(src, k), W->dm())); GreensFunction& G13 = *G13_p;
+        std::unique_ptr<GreensFunction> G24_p(new GreensFunction(W->s(), W->h(), W->c_of(src, j), W->cdag_of(src, l), W->dm())); GreensFunction& G24 = *G24_p;
+        std::unique_ptr<GreensFunction> G14_p(new GreensFunction(W->s(), W->h(), W->c_of(src, i), W->cdag_of(src, l), W->dm())); GreensFunction& G14 = *G14_p;
+        std::unique_ptr<GreensFunction> G23_p(new GreensFunction(W->s(), W->h(), W->c_of(src, j), W->cdag_of(src, k), W->dm())); GreensFunction& G23 = *G23_p;
         G13.prepare(); G13.compute(); G24.prepare(); G24.compute(); G14.prepare(); G14.compute(); G23.prepare(); G23.compute();
-        Vertex4 V(X, G13, G24, G14, G23);
+        std::unique_ptr<Vertex4> V_p(new Vertex4(X, G13, G24, G14, G23)); Vertex4& V = *V_p;
         std::string steps = "[";
         for (size_t w = 0; w < windows.size(); w++) {
             V.compute(windows[w]);
